@@ -42,12 +42,19 @@ Theorem C40_every_timestamp : forall base o1 others,
 Proof. exact every_timestamp. Qed.
 Print Assumptions C40_every_timestamp.
 
+(* The same for whole series: all chunks of the series being merged, in the
+   order dedupChunksIterator pops them, are split into overlap groups (exact
+   copies of the previous chunk are skipped, a chunk that overlaps nothing is
+   passed through); every chunk produced is complete. *)
+Theorem C40_every_timestamp_series : forall chunks,
+  Forall well_formed chunks ->
+  exists out, merge_series chunks = Some out /\ forallb ochunk_ok out = true.
+Proof. exact every_timestamp_series. Qed.
+Print Assumptions C40_every_timestamp_series.
+
 (* Wherever the check finds model = implementation on a case, the predicate it
    evaluates on the implementation's own output follows. *)
-Theorem C40_corr_implies_pred : forall c,
-  corr_ok c = true ->
-  (exists b o1 o, case_input c = Some (b, o1 :: o)) ->
-  pred_ok c = true.
+Theorem C40_corr_implies_pred : forall c, corr_ok c = true -> pred_ok c = true.
 Proof. exact corr_implies_pred. Qed.
 Print Assumptions C40_corr_implies_pred.
 
@@ -71,6 +78,12 @@ Example C40_nonvacuous :
   match merge_group (ex_chunk 1600000000000 130 10) [ex_chunk 1600015120000 150 20] with
   | Some out => map (fun oc => length (match nth 1 (snd oc) None with Some l => l | None => [] end)) out = [120; 79]%nat
                 /\ forallb ochunk_ok out = true
+  | None => False
+  end /\
+  (* a series: a group of two, an exact copy, and a later chunk that overlaps nothing *)
+  match merge_series [ex_chunk 1600000000000 130 10; ex_chunk 1600015120000 150 20;
+                      ex_chunk 1600015120000 150 20; ex_chunk 1700000000000 7 30] with
+  | Some out => length out = 3%nat /\ forallb ochunk_ok out = true
   | None => False
   end.
 Proof. vm_compute. repeat split; reflexivity. Qed.
